@@ -274,3 +274,47 @@ def run_kind(prog: Program, kind: str, mode: str | None, database_set=True, sche
         tr.public_rowcount = info["rowcount"]
         traces.append(tr)
     return traces
+
+
+# ---------------------------------------------------------------------- execute() end to end
+class FullHooks(ExecHooks):
+    """execute(command, params): the Snowflake parse is replaced by a statement descriptor."""
+
+    def __init__(self, mode, kind):
+        super().__init__(mode)
+        self.kind = kind
+        self.parsed = 0
+
+    def external(self, I, d, args, kwargs, site):
+        if d in ("sqlglot.parse_one",) and isinstance(kwargs.get("read"), Const) and kwargs["read"].v == "snowflake":
+            self.parsed += 1
+            I.effect("parse-user", args[0] if args else None, site)
+            return descriptors()[self.kind]
+        return super().external(I, d, args, kwargs, site)
+
+
+def run_execute(prog: Program, kind: str, mode: str | None, params=None, paramstyle="pyformat", nop_regexes=None,
+                variables=None, max_paths=256, old_sqlstate="OLD"):
+    out = []
+    hooks_list, sessions = [], []
+
+    def factory():
+        h = FullHooks(mode, kind)
+        hooks_list.append(h)
+        return h
+
+    def run(I: Interp):
+        duck, conn, cur = make_session()
+        conn.attrs["_paramstyle"] = Const(paramstyle)
+        conn.attrs["nop_regexes"] = nop_regexes if nop_regexes is not None else Const(None)
+        if variables:
+            conn.attrs["variables"].attrs["_variables"] = Dct(variables)
+        cur.attrs["_sqlstate"] = Const(old_sqlstate)
+        sessions.append((conn, cur))
+        return I.call(I.getattr(cur, "execute"), [Sym("COMMAND", typ="str", truthy=True), params if params is not None else Const(None)], {}, None)
+
+    paths = explore(prog, factory, run, max_paths=max_paths)
+    for p, h, (conn, cur) in zip(paths, hooks_list, sessions):
+        tr = Trace(kind, mode, p, h, conn, cur, None, (True, True))
+        out.append(tr)
+    return out
